@@ -66,4 +66,17 @@ PROPS = {
         "modelled": ["modelled, not verified: client side (Connect) and the byte-level receive loop are covered by C09/C13"],
         "assumptions": ["G9.SrvSeq mirrors Srv.version and the Respond* buffer checks (checked by the differential run)"],
     },
+    "C13": {
+        "rule": "server: after an interactive set-up, a body of 6..25 mutually independent requests with distinct tags "
+                "(7-byte to near-msize frames, msize 64..4096 so the 8*msize buffer is advanced through and reallocated), "
+                "optionally one malformed frame (undersize, oversize, undefined type), delivered whole, cut at every single "
+                "offset, one byte at a time, and in random multi-way cuts through a pipe whose Read returns exactly the "
+                "chunk; Twrite payloads are looked at by the implementation only after all later chunks arrived. Compared "
+                "with the model: frames executed / connection ended; oracle: replies and payloads identical to the "
+                "unsegmented run. client: 1..8 concurrent calls answered in one reply stream cut arbitrarily. "
+                "non-trivial = distinct (body, cuts) runs that executed at least one frame",
+        "modelled": ["modelled, not verified: the transport as a reliable byte stream whose Read returns 1..len bytes; "
+                     "uint32 wrap of msize*8 for msize >= 2^29 is outside the model (a server cannot be configured that large in practice)"],
+        "assumptions": ["G9.Frame mirrors the receive loops of srv_conn.go and clnt_clnt.go (checked by the differential run)"],
+    },
 }
